@@ -9,16 +9,33 @@ from vlib.core import VERIF, HarnessError
 LEVEL = "exploration"
 RULE = (
     "Hypothesis builds pydicom datasets from an element pool covering every VR the installed pydicom dictionary offers (one public tag per VR, "
-    "multi-valued where the VM allows, empty and odd-length values, sequences to depth 2, a private block), kept only if pydicom alone round-trips "
-    "the dataset under the chosen transfer syntax (differential baseline). Transfer syntax in {implicit LE, explicit LE, explicit BE, deflated}; "
+    "multi-valued where the VM allows, empty and odd-length values, sequences to depth 2, a private block), kept only if pydicom alone (its own "
+    "writer/reader + zlib, nothing from the tree under test) round-trips the dataset under every transfer syntax involved (differential baseline). "
+    "Transfer syntax in {implicit LE, explicit LE, explicit BE, deflated}; "
     "maximum PDU sizes 0 and 7..300 on both sides; chunked send and chunked receive on/off; operation C-STORE, C-FIND (request identifier and "
     "response identifiers) or C-GET (C-STORE sub-operation towards the requestor). Two real AEs exchange the data under the E4 scheduler. Oracle: the "
     "peer handler's event.dataset / event.identifier, the decoded event.encoded_dataset(False), and in chunked-receive mode the file at "
-    "event.dataset_path all equal the original dataset. Non-trivial = the data set was fragmented over >=3 P-DATA PDUs or sent deflated."
+    "event.dataset_path all equal the original dataset. "
+    "Three generators feed the same check: (1) the general one above (one transfer syntax, the data set is sent in it; a third of the cases in "
+    "chunked-send mode); (2) a C-STORE-only one biased to small odd/even maximum PDU sizes (9..301) with a padding element sized so that the LAST "
+    "data-set fragment is 1 byte / less than half / at least half / exactly full (chunked and in-memory sends alike, all four transfer syntaxes) "
+    "and half of the cases in chunked-send mode; (3) an enumerated matrix 'transfer syntax of the file or data set given to send_c_store' x "
+    "'transfer syntax(es) accepted for its SOP class' (all 4 x (4 single + 12 ordered pairs) combinations in chunked-send mode, and for in-memory "
+    "data sets all 16 single-context pairs plus every ordered pair of two accepted contexts once) with seeded payloads, where the outcome must be "
+    "'refused before anything was sent' (documented ValueError; only acceptable when the file's transfer syntax itself was not accepted) or "
+    "'delivered equal by every access path under the context it arrived on'. "
+    "Non-trivial = the data set was fragmented over >=3 P-DATA PDUs, sent deflated, or its transfer syntax differs from an accepted one."
 )
 ASSUMPTIONS = [
-    "pydicom's own encode/decode round trip is the baseline: datasets it cannot round-trip under the transfer syntax are discarded and counted",
+    "baseline = pydicom alone: filewriter.write_dataset / filereader.read_dataset on the right VR/endianness and, for the deflated syntax, a raw "
+    "RFC 1951 stream (zlib wbits=-15, PS3.5 A.5) via engines/e3kit.ref_encode/ref_decode - pynetdicom.dsutils of the tree under test is not "
+    "involved in the baseline or in decoding event.encoded_dataset(); datasets pydicom cannot round-trip under each transfer syntax involved "
+    "are discarded and counted",
     "dataset equality = pydicom Dataset.__eq__ on fully decoded datasets without file meta",
+    "send_c_store raising ValueError with nothing delivered ('no accepted presentation context', documented) is the only acceptable "
+    "alternative to delivery, and only when the transfer syntax of the file / data set was not itself accepted for the SOP class",
+    "the bytes returned by event.encoded_dataset(False) are decoded under the transfer syntax of event.context, which must be one of the "
+    "transfer syntaxes the scenario had accepted",
     "E4 substitution table (engines/dsched.py)",
 ]
 SHARDS = {"quick": 1, "thorough": 16}
@@ -103,7 +120,7 @@ def _val(vr, x):
     return x
 
 
-def strategies(ctx):
+def strategies(ctx, which="general"):
     from hypothesis import strategies as st
 
     text = st.text(alphabet="ABCDEFGHIJ abcxyz0123456789_-", min_size=0, max_size=14).map(lambda s: s.strip())
@@ -143,11 +160,64 @@ def strategies(ctx):
             "ts": draw(st.sampled_from(["implicit", "explicit", "big", "deflated"])),
             "spec": spec,
             "max_pdu_rq": draw(st.sampled_from([0, 7, 8, 16, 64, 300, 16382])), "max_pdu_ac": draw(st.sampled_from([0, 7, 9, 32, 128, 300, 16382])),
-            "chunk_send": draw(st.booleans()), "chunk_recv": draw(st.booleans()),
+            "chunk_send": draw(st.sampled_from([True, True, False])), "chunk_recv": draw(st.booleans()),
             "policy": draw(st.sampled_from(["fifo", "random"])), "seed": draw(st.integers(0, 9999)),
+            "tail": draw(st.sampled_from([None, None, "1", "lt", "gt", "full"])),
         }
 
+    @st.composite
+    def spec_only(draw):
+        spec = draw(elems(2))
+        if draw(st.integers(0, 2)) == 0:
+            spec.append(["OB", False, [draw(st.binary(min_size=100, max_size=900))]])
+        return spec
+
+    @st.composite
+    def store_tail(draw):
+        """C-STORE only, small maximum PDU sizes of both parities, every fill level of the last fragment, half chunked-send."""
+        c = draw(case())
+        c.update(
+            op="store",
+            max_pdu_ac=draw(st.sampled_from([9, 10, 13, 16, 21, 32, 37, 64, 101, 128, 300, 301])),
+            chunk_send=draw(st.booleans()),
+            tail=draw(st.sampled_from(["1", "lt", "lt", "gt", "full"])),
+        )
+        return c
+
+    if which == "spec":
+        return spec_only()
+    if which == "store_tail":
+        return store_tail()
     return case()
+
+
+TS_NAMES = ("implicit", "explicit", "big", "deflated")
+
+
+def matrix_cases(ctx, payloads):
+    """Enumerated: transfer syntax of the file / data set x transfer syntaxes accepted for its SOP class (1 or 2 contexts)."""
+    import random
+
+    singles = [[t] for t in TS_NAMES]
+    pairs = [[a, b] for a in TS_NAMES for b in TS_NAMES if a != b]
+    rows = [(f, acc, True) for f in TS_NAMES for acc in singles + pairs]  # chunked send: all 64
+    rows += [(f, acc, False) for f in TS_NAMES for acc in singles]  # in-memory: all 16 single-context pairs
+    rows += [(TS_NAMES[(k + (0 if ctx.quick else rep)) % 4], acc, False) for rep in range(1 if ctx.quick else 4) for k, acc in enumerate(pairs)]
+    rnd = random.Random(ctx.seed * 7919 + 25)
+    out = []
+    for idx, (file_ts, accept, chunk) in enumerate(rows):
+        if idx % ctx.nshards != ctx.shard:
+            rnd.random()
+            continue
+        out.append(
+            {
+                "op": "store", "ts": accept[0], "file_ts": file_ts, "accept": accept, "spec": payloads[idx % len(payloads)],
+                "max_pdu_rq": rnd.choice([0, 16, 300, 16382]), "max_pdu_ac": rnd.choice([0, 9, 32, 37, 128, 300, 16382]),
+                "chunk_send": chunk, "chunk_recv": rnd.random() < 0.35, "policy": "fifo", "seed": idx,
+                "tail": rnd.choice([None, "1", "lt", "gt", "full"]),
+            }
+        )
+    return out
 
 
 def _strip(ds):
@@ -171,58 +241,140 @@ def _same(a, b):
         return False
 
 
+PAD_TAG = 0x00420011  # Encapsulated Document (OB): padding element used to steer the length of the encoded data set
+
+
+def _convertible(src, dst):
+    """docs/user/presentation_requestor.rst (same rule as engines/e3kit.ts_convertible): same syntax, or both
+    uncompressed/deflated with the same byte order"""
+    return src == dst or (src != "big") == (dst != "big")
+
+
+def _pad_for_tail(ds, ts_uid, frag, tail, seed):
+    """Add the padding element to `ds` so that the data set encoded under `ts_uid` ends in a last fragment of the wanted
+    fill level when cut into pieces of `frag` bytes (best effort; the achieved level is measured by the caller)."""
+    import random
+
+    from engines import e3kit as K
+
+    if frag < 2 or frag > 400:
+        return
+    want = {"1": 1, "lt": max(1, frag // 4), "gt": min(frag - 1, (3 * frag) // 4), "full": 0}[tail] % frag
+    stream = random.Random(seed).randbytes(2 * frag + 1300)
+    deflated = K.TS[ts_uid][2]
+
+    def length(p):
+        ds.add_new(PAD_TAG, "OB", stream[:p])
+        return len(K.ref_encode(ds, ts_uid))
+
+    if not deflated:
+        l0 = length(0)
+        p = (want - l0) % frag
+        if p % 2:
+            p += frag if frag % 2 else 1
+        while l0 + p <= frag:
+            p += frag * (1 if frag % 2 == 0 else 2)
+        length(p)
+        return
+    best = None
+    for p in range(0, min(2 * frag + 1200, 1300), 2):
+        n = length(p)
+        if n > frag and n % frag == want:
+            return
+        if best is None and n > frag:
+            best = p
+    length(best or 0)
+
+
+def _fill_class(n, frag):
+    if frag <= 0 or n <= frag:
+        return "single"
+    r = n % frag
+    if r == 0:
+        return "full"
+    if r == 1:
+        return "1-byte"
+    return "<half" if 2 * r < frag else ">=half"
+
+
 def check_transfer(ctx, case):
     from io import BytesIO
 
+    from engines import e3kit as K
     from pydicom import dcmread
     from pydicom.dataset import Dataset, FileMetaDataset
     from pynetdicom import AE, _config, evt
-    from pynetdicom.dsutils import decode, encode
 
-    tsuid = TS[case["ts"]]
-    implicit, little, deflated = case["ts"] == "implicit", case["ts"] != "big", case["ts"] == "deflated"
+    op = case["op"]
+    ts = case["ts"]
+    # transfer syntax of the data set / file handed to send_c_store and the ones accepted for its SOP class
+    file_ts = case.get("file_ts", ts) if op == "store" else ts
+    accept = list(case.get("accept") or [ts]) if op == "store" else [ts]
+    involved = sorted(set(accept + [file_ts]))
+    tsuid = TS[ts]
+    deflated = "deflated" in involved
     try:
-        spec = [e for e in case["spec"] if not (e[0] == "PRIVATE" and case["ts"] == "implicit")]
+        spec = [e for e in case["spec"] if not (e[0] == "PRIVATE" and "implicit" in involved)]
         ds = build_ds(spec)
     except Exception as e:
         ctx.note(case, nontrivial=False, classes=["unbuildable:" + type(e).__name__])
         return
-    op = case["op"]
     if op in ("store", "get"):
         ds.SOPClassUID = CT
         ds.SOPInstanceUID = "1.2.3.4.5"
     else:
         ds.QueryRetrieveLevel = "PATIENT"
-    # differential baseline: pydicom alone must round-trip it under this transfer syntax
+    chunk_send = bool(case["chunk_send"]) and op == "store"
+    # the transfer syntax the data set is expected to travel in (None: no usable context, the send must be refused)
+    if file_ts in accept:
+        wire = file_ts
+    else:
+        wire = next((t for t in accept if _convertible(file_ts, t)), None) if not chunk_send else None
+    # sender's fragment size: the receiver's maximum PDU length minus the 6 byte PDV item header
+    max_pdu_dir = case["max_pdu_rq"] if op == "get" else case["max_pdu_ac"]
+    frag = max_pdu_dir - 6 if max_pdu_dir else 0
+    # differential baseline: pydicom alone (no code of the tree under test) must round-trip it under every syntax involved
     try:
-        raw = encode(ds, implicit, little, deflated)
-        back = decode(BytesIO(raw), implicit, little, deflated) if raw is not None else None
-        # force full decoding
-        if back is not None:
-            str(back)
+        if case.get("tail") and wire and frag:
+            _pad_for_tail(ds, TS[wire], frag, case["tail"], case.get("seed", 0))
+        ok = True
+        for t in involved:
+            raw = K.ref_encode(ds, TS[t])
+            back = K.ref_decode(raw, TS[t])
+            str(back)  # force full decoding
+            ok = ok and _same(back, ds)
+        wire_len = len(K.ref_encode(ds, TS[wire])) if wire else 0
     except Exception:
-        raw, back = None, None
-    if raw is None or back is None or not _same(back, ds):
+        ok = False
+    if not ok:
         ctx.note(case, nontrivial=False, classes=["baseline-discarded"])
         return
 
     tmpdir = tempfile.mkdtemp(prefix="c25_", dir=os.path.join(VERIF, ".work")) if os.path.isdir(os.path.join(VERIF, ".work")) else tempfile.mkdtemp(prefix="c25_", dir="/var/tmp")
     old = (_config.STORE_SEND_CHUNKED_DATASET, _config.STORE_RECV_CHUNKED_DATASET)
-    _config.STORE_SEND_CHUNKED_DATASET = bool(case["chunk_send"]) and op == "store"
+    _config.STORE_SEND_CHUNKED_DATASET = chunk_send
     _config.STORE_RECV_CHUNKED_DATASET = bool(case["chunk_recv"])
     seen = []  # (where, kind, dataset or exception)
     paths = []
     result = {}
+    accepted_uids = {TS[t] for t in accept}
     try:
         with S.World(S.Chooser(case["policy"], case["seed"]), max_steps=60000, quantum=0.1) as w:
             def grab_store(event, where):
+                try:
+                    cx_ts = str(event.context.transfer_syntax)
+                except Exception as e:
+                    cx_ts = None
+                    seen.append((where, "context", e))
+                result.setdefault("cx_ts", []).append(cx_ts)
                 try:
                     seen.append((where, "dataset", _strip(event.dataset)))
                 except Exception as e:
                     seen.append((where, "dataset", e))
                 try:
                     enc = event.encoded_dataset(include_meta=False)
-                    seen.append((where, "encoded", _strip(decode(BytesIO(enc), implicit, little, deflated))))
+                    if cx_ts in accepted_uids:
+                        seen.append((where, "encoded", _strip(K.ref_decode(enc, cx_ts))))
                 except Exception as e:
                     seen.append((where, "encoded", e))
                 if _config.STORE_RECV_CHUNKED_DATASET:
@@ -252,7 +404,7 @@ def check_transfer(ctx, case):
             scp = AE("SCP")
             scp.acse_timeout, scp.dimse_timeout, scp.network_timeout = 5, 5, 10
             scp.maximum_pdu_size = case["max_pdu_ac"]
-            scp.add_supported_context(CT, tsuid, scu_role=True, scp_role=True)
+            scp.add_supported_context(CT, [TS[t] for t in accept], scu_role=True, scp_role=True)
             scp.add_supported_context(FIND, tsuid)
             scp.add_supported_context(GET, tsuid)
             w.serve(scp, PORT, handlers=[(evt.EVT_C_STORE, grab_store, ["scp"]), (evt.EVT_C_FIND, h_find), (evt.EVT_C_GET, h_get)])
@@ -262,7 +414,8 @@ def check_transfer(ctx, case):
 
                 scu = AE("SCU")
                 scu.acse_timeout, scu.dimse_timeout, scu.network_timeout = 5, 5, 10
-                scu.add_requested_context(CT, tsuid)
+                for t in accept:  # one proposed (and accepted) context per transfer syntax
+                    scu.add_requested_context(CT, TS[t])
                 scu.add_requested_context(FIND, tsuid)
                 scu.add_requested_context(GET, tsuid)
                 ext = [build_role(CT, scu_role=True, scp_role=True)] if op == "get" else []
@@ -270,20 +423,23 @@ def check_transfer(ctx, case):
                 result["established"] = a.is_established
                 if not a.is_established:
                     return
+                result["accepted"] = sorted(str(cx.transfer_syntax[0]) for cx in a.accepted_contexts if cx.abstract_syntax == CT)
                 if op == "store":
                     d = Dataset()
                     d.update(ds)
                     d.file_meta = FileMetaDataset()
-                    d.file_meta.TransferSyntaxUID = tsuid
+                    d.file_meta.TransferSyntaxUID = TS[file_ts]
                     d.file_meta.MediaStorageSOPClassUID = CT
                     d.file_meta.MediaStorageSOPInstanceUID = "1.2.3.4.5"
+                    src = d
                     if _config.STORE_SEND_CHUNKED_DATASET:
-                        fp = os.path.join(tmpdir, "send.dcm")
-                        d.save_as(fp, implicit_vr=implicit, little_endian=little, enforce_file_format=True) if hasattr(d, "save_as") else None
-                        st_ = a.send_c_store(fp)
-                    else:
-                        st_ = a.send_c_store(d)
-                    result["status"] = st_.Status if (st_ is not None and "Status" in st_) else None
+                        src = os.path.join(tmpdir, "send.dcm")
+                        d.save_as(src, implicit_vr=file_ts == "implicit", little_endian=file_ts != "big", enforce_file_format=True)
+                    try:
+                        st_ = a.send_c_store(src)
+                        result["status"] = st_.Status if (st_ is not None and "Status" in st_) else None
+                    except ValueError as e:  # documented: no accepted presentation context for the data set
+                        result["refused"] = repr(e)
                 elif op == "find":
                     got = []
                     for st_, ident in a.send_c_find(ds, FIND):
@@ -314,27 +470,51 @@ def check_transfer(ctx, case):
 
         shutil.rmtree(tmpdir, ignore_errors=True)
 
-    mode = ("chunk-send" if case["chunk_send"] and op == "store" else "mem-send") + "/" + ("chunk-recv" if case["chunk_recv"] else "mem-recv")
-    ctx.note(case, nontrivial=n_pdata >= 3 or deflated, classes=[op, case["ts"], mode, how, f"pdata={'>=3' if n_pdata >= 3 else n_pdata}"])
+    mode = ("chunk-send" if chunk_send else "mem-send") + "/" + ("chunk-recv" if case["chunk_recv"] else "mem-recv")
+    classes = [op, ts, mode, how, f"pdata={'>=3' if n_pdata >= 3 else n_pdata}"]
+    mismatch = file_ts not in accept
+    if op == "store":
+        relation = "exact" if not mismatch else ("convertible" if any(_convertible(file_ts, t) for t in accept) else "inconvertible")
+        classes += [f"contexts-accepted:{len(accept)}", f"file-ts:{relation}", "outcome:" + ("refused" if "refused" in result else "sent")]
+        if "accept" in case or "file_ts" in case:
+            classes.append(f"matrix:{'chunk' if chunk_send else 'mem'}:{file_ts}->{'+'.join(accept)}")
+    if wire:
+        classes.append(f"last-fragment:{'chunk' if chunk_send else 'mem'}:{_fill_class(wire_len, frag)}")
+    ctx.note(case, nontrivial=n_pdata >= 3 or deflated or mismatch, classes=classes)
+    desc = f"op={op} file_ts={file_ts} accepted={accept} mode={mode} max_pdu={case['max_pdu_rq']}/{case['max_pdu_ac']}"
     if how == "budget":
         ctx.inconclusive += 1
         return
     died = [t for t in rep["threads"] if t["exc"]]
     if died:
-        ctx.fail("thread-exception", f"{died[0]['kind']}:{died[0]['exc'][2]}", f"{died[0]['name']} died: {died[0]['exc'][:2]}; op={op} ts={case['ts']} mode={mode}")
+        ctx.fail("thread-exception", f"{died[0]['kind']}:{died[0]['exc'][2]}", f"{died[0]['name']} died: {died[0]['exc'][:2]}; {desc}")
         return
     if not result.get("established"):
         raise HarnessError("association not established in C25 scenario")
+    if op == "store" and result.get("accepted") != sorted(accepted_uids):
+        raise HarnessError(f"C25 scenario: accepted storage contexts {result.get('accepted')} != planned {sorted(accepted_uids)}")
     want = _strip(ds)
-    if not seen:
-        ctx.fail("not-delivered", f"{op}:{mode}", f"no handler saw the dataset; status={result.get('status')} op={op} ts={case['ts']} max_pdu={case['max_pdu_rq']}/{case['max_pdu_ac']}")
+    if "refused" in result:
+        # nothing may have reached the peer, and a refusal is only acceptable when the file's syntax was not accepted
+        if seen:
+            ctx.fail("refused-but-sent", f"{mode.split('/')[0]}:{relation}", f"send_c_store raised {result['refused']} but the peer's handler was invoked; {desc}")
+        elif not mismatch:
+            ctx.fail("not-delivered", f"{op}:{mode}:refused", f"send_c_store refused a data set whose transfer syntax was accepted: {result['refused']}; {desc}")
         return
+    if not seen:
+        ctx.fail("not-delivered", f"{op}:{mode}", f"no handler saw the dataset; status={result.get('status')} ts={ts} {desc}")
+        return
+    for cx_ts in result.get("cx_ts", []):
+        if cx_ts not in accepted_uids:
+            ctx.fail("context", f"{op}:{mode.split('/')[0]}", f"the handler's event.context has transfer syntax {cx_ts}, accepted were {sorted(accepted_uids)}; {desc}")
+            return
     for where, kind, got in seen:
+        tag = ts if not mismatch else f"{relation}-ts"
         if isinstance(got, Exception):
-            ctx.fail("access-raises", f"{kind}:{mode.split('/')[1]}:{type(got).__name__}", f"{where} handler: accessing {kind} raised {got!r}; ts={case['ts']} mode={mode}")
+            ctx.fail("access-raises", f"{kind}:{mode.split('/')[1]}:{type(got).__name__}" if not mismatch else f"{kind}:{mode.split('/')[0]}:{relation}-ts:{type(got).__name__}", f"{where} handler: accessing {kind} raised {got!r}; ts={ts} {desc}")
             return
         if not _same(got, want):
-            ctx.fail("dataset-differs", f"{kind}:{mode.split('/')[1]}:{case['ts']}" if kind != "identifier" else f"{op}:{kind}:{where}:{case['ts']}", f"{where} handler: {kind} differs from the dataset sent; ts={case['ts']} max_pdu={case['max_pdu_rq']}/{case['max_pdu_ac']} mode={mode}\n sent={want}\n got ={got}")
+            ctx.fail("dataset-differs", (f"{kind}:{mode.split('/')[1]}:{tag}" if not mismatch else f"{kind}:{mode.split('/')[0]}:{tag}") if kind != "identifier" else f"{op}:{kind}:{where}:{ts}", f"{where} handler: {kind} differs from the dataset sent; ts={ts} {desc}\n sent={want}\n got ={got}")
             return
 
 
@@ -343,4 +523,23 @@ CHECKS = {"transfer": check_transfer}
 
 def run(ctx):
     os.makedirs(os.path.join(VERIF, ".work"), exist_ok=True)
-    ctx.hyp("transfer", strategies(ctx), 120 if ctx.quick else 800)
+    ctx.hyp("transfer", strategies(ctx), 110 if ctx.quick else 800)
+    ctx.hyp("transfer", strategies(ctx, "store_tail"), 60 if ctx.quick else 500)
+    # matrix payloads: seeded specs that pydicom round-trips under all four transfer syntaxes (so no combination is discarded)
+    from engines import e3kit as K
+
+    payloads = []
+    for spec in ctx.collect("matrix-payloads", strategies(ctx, "spec"), 40):
+        spec = [e for e in spec if e[0] != "PRIVATE"]
+        try:
+            ds = build_ds(spec)
+            ds.SOPClassUID, ds.SOPInstanceUID = CT, "1.2.3.4.5"
+            if all(_same(K.ref_decode(K.ref_encode(ds, TS[t]), TS[t]), ds) for t in TS_NAMES):
+                payloads.append(spec)
+        except Exception:
+            continue
+        if len(payloads) == 12:
+            break
+    if not payloads:
+        raise HarnessError("C25: no matrix payload round-trips under all transfer syntaxes")
+    ctx.each("transfer", matrix_cases(ctx, payloads))
